@@ -183,6 +183,7 @@ package webp
 //@   ensures result1 == nil && !isLossless && len(alphaData) > 0 && len(alphaData) < 0x40000000 ==> int(result0[4]) | int(result0[5])<<8 | int(result0[6])<<16 | int(result0[7])<<24 == len(alphaData)
 //@   ensures result1 == nil && !isLossless && len(alphaData) > 0 && len(alphaData) < 0x40000000 ==> forall k int :: 0 <= k && k < len(alphaData) ==> result0[8+k] == alphaData[k]
 //@   ensures result1 == nil && !isLossless && len(alphaData) > 0 && len(alphaData) < 0x40000000 ==> len(result0) == 8 + len(alphaData) + (len(alphaData) & 1) + len(bs)
+//@   ensures result1 == nil && !isLossless && len(alphaData) > 0 && len(alphaData) < 0x40000000 && len(alphaData) % 2 != 0 ==> result0[8 + len(alphaData)] == 0
 //
 // The single-frame shortcut of the animation encoder goes through Encode with
 // options that keep alpha unquantised as well.
